@@ -7,6 +7,7 @@ import (
 	"fmt"
 	"strings"
 	"sync"
+	"time"
 
 	"github.com/facebookincubator/tacquito/cmds/server/config"
 	srvlog "github.com/facebookincubator/tacquito/cmds/server/log"
@@ -210,6 +211,19 @@ func runC18(b *mon.B) {
 			}
 		}
 	}
+	// ---- a keychain that takes more than a second to answer (remote keychain under load): the
+	// handler of the password packet is slow; whatever the server does about slow handlers must
+	// not put the password in a log. Few sessions: each costs a second of real time.
+	for k := 0; k < b.N1(2, 6); k++ {
+		u := tokUsers[3*r.Intn((len(tokUsers)+2)/3)] // keychain users are the ones with i%3 == 0
+		sc.Keys.SetSlow(u, 1100*time.Millisecond)
+		if k%2 == 0 {
+			runSession("pap-slow-keychain", "pap-slow-keychain", tokPw[u], papLogin(u, tokPw[u], 1).Pkts, key)
+		} else {
+			runSession("ascii-slow-keychain", "ascii-slow-keychain", tokPw[u], asciiLogin(u, true, tokPw[u], 0).Pkts, key)
+		}
+		sc.Keys.SetSlow(u, 0)
+	}
 	// ---- ASCII and PAP flows
 	for k := 0; k < b.N(120, 6000); k++ {
 		user, real, kind := pickUser()
@@ -218,8 +232,21 @@ func runC18(b *mon.B) {
 		if right {
 			pw = real
 		}
-		flow := r.Intn(13)
+		flow := r.Intn(14)
 		switch flow {
+		case 13:
+			// an empty answer at a prompt, then the real answer (twice: whichever prompt the
+			// server is at by then)
+			rcp := asciiLogin(user, r.Bool(), pw, 0)
+			n := len(rcp.Pkts)
+			empty := pktPlan{Type: 1, Body: bAuthenContinue(0, "", "")}
+			at := n - 1 // before the password
+			if r.Chance(1, 3) && n == 3 {
+				at = 1 // before the user name
+			}
+			pk := append(append(append([]pktPlan{}, rcp.Pkts[:at]...), empty), rcp.Pkts[at:]...)
+			pk = append(pk, rcp.Pkts[n-1])
+			runSession("ascii-empty-answer-then-password", fmt.Sprintf("ascii-empty-answer@%d/%s", at, kind), pw, pk, key)
 		case 12:
 			// the write of the final reply fails (the peer reset the connection)
 			if r.Bool() {
